@@ -448,6 +448,22 @@ func (e *Enc) callStatic(ci ssa.CallInstruction, c *ssa.CallCommon, fn *ssa.Func
 	for i := range args {
 		e.argTerm(c, args, i)
 	}
+	// lock discipline across calls: the callee must not acquire a mutex the caller holds
+	if _, used := e.heapSorts["L$held"]; used {
+		for _, lr := range lockSetOf(fn, 0, map[*ssa.Function]bool{}) {
+			if lr.param < len(args) && args[lr.param].Sort == SInt && args[lr.param].S != "ADDR" {
+				addr := App(SInt, "+", args[lr.param], IntLit(int64(1000+lr.field)))
+				held := e.lookup(e.cur, "L$held", ArraySort(SInt, SInt))
+				cond := Eq(Select(held, addr), IntLit(0))
+				if !lr.write && !(e.fc != nil && e.fc.Contended) {
+					// a nested read lock is only a hazard while a writer can arrive
+					cond = Not(Eq(Select(held, addr), IntLit(2)))
+				}
+				e.oblige("PROTO", "lock.nested", nil, cond,
+					"call of "+shortFuncName(fn)+", which acquires a mutex ("+lr.desc+") that this thread may already hold", ci.Pos())
+			}
+		}
+	}
 	fc := e.prog.contractOf(fn)
 	if fc == nil {
 		e.assumed["call of "+shortFuncName(fn)+" (no contract): all heaps havocked, assumed not to panic"] = true
@@ -550,7 +566,14 @@ func (e *Enc) applyContract(ci ssa.CallInstruction, fc *FuncContract, fn *ssa.Fu
 	// 2. frame: a contract without a modifies clause promises nothing about the heap (its body is not
 	// frame-checked either), so the caller must assume everything may have changed
 	if fc.modifiesAll() {
+		before := e.cur
 		e.cur = e.havocAll(e.cur)
+		if len(fc.ModExcept) > 0 {
+			for _, n := range e.exceptedHeaps(fc.ModExcept) {
+				e.cur.vals[n] = e.lookup(before, n, e.heapSorts[n])
+			}
+			e.assumed["modifies allbut(...): the excepted ghost variables and the fields of types of the excepted packages are not changed by the callee (for dynamic callees: they cannot name those unexported fields and receive no pointer to such objects)"] = true
+		}
 	} else {
 		for _, m := range fc.Modifies {
 			ts, err := se.modTargets(m)
@@ -929,6 +952,14 @@ func (e *Enc) checkExit() error {
 				return err
 			}
 		}
+		// lock discipline: every mutex acquired here is released on every normal way out
+		if _, used := e.heapSorts["L$held"]; used {
+			h0 := e.lookup(e.entry, "L$held", ArraySort(SInt, SInt))
+			h1 := e.lookup(exitState, "L$held", ArraySort(SInt, SInt))
+			if h0.S != h1.S {
+				e.oblige("PROTO", "lock.balanced", nil, Eq(h0, h1), "the locks held at return are exactly those held at entry", e.fn.Pos())
+			}
+		}
 		if fc == nil || !fc.PanicsAlways {
 			e.cover("exit", exitG)
 		}
@@ -992,9 +1023,25 @@ func (e *Enc) checkExit() error {
 // checkFrame: heaps not listed in modifies are unchanged on pre-existing objects.
 func (e *Enc) checkFrame(exit *State, se *specEnv) error {
 	fc := e.fc
-	if fc.ModAll || (len(fc.Modifies) == 0 && !fc.ModNone) {
-		if !fc.ModAll && !fc.ModNone {
-			// no modifies clause: treated as "modifies all" for callers
+	if fc.modifiesAll() {
+		// nothing promised, except the heaps excepted by allbut(...)
+		if len(fc.ModExcept) > 0 {
+			alloc0 := e.lookup(e.entry, "alloc", SInt)
+			for _, n := range e.exceptedHeaps(fc.ModExcept) {
+				srt := e.heapSorts[n]
+				before := e.lookup(e.entry, n, srt)
+				after := e.lookup(exit, n, srt)
+				if before.S == after.S {
+					continue
+				}
+				if strings.HasPrefix(n, "G$") {
+					e.oblige("FRAME", sanitize(n), nil, Eq(before, after), "ghost variable "+n[2:]+" is excepted from the modifies clause", e.fn.Pos())
+					continue
+				}
+				a := T("fa", SInt)
+				body := Implies(App(SBool, "<=", a, alloc0), Eq(Select(after, a), Select(before, a)))
+				e.oblige("FRAME", sanitize(n), nil, T(fmt.Sprintf("(forall ((fa Int)) %s)", body.S), SBool), n+" is excepted from the modifies clause", e.fn.Pos())
+			}
 		}
 		return nil
 	}
@@ -1632,4 +1679,112 @@ func debugIdent(v ssa.Value) string {
 		}
 	}
 	return ""
+}
+
+
+// exceptedHeaps: the heaps named by an allbut(...) list: ghost variables by name, pkg:<name> = the
+// field heaps of every struct type declared in a package with that name.
+func (e *Enc) exceptedHeaps(except []string) []string {
+	var out []string
+	for n := range e.heapSorts {
+		for _, x := range except {
+			if strings.HasPrefix(x, "pkg:") {
+				if strings.HasPrefix(n, "F$"+sanitize(strings.TrimPrefix(x, "pkg:"))+"_") {
+					out = append(out, n)
+				}
+			} else if n == "G$"+x {
+				out = append(out, n)
+			}
+		}
+	}
+	sort.Strings(out)
+	return out
+}
+
+
+// lockRef: the callee locks the mutex stored in field `field` of the object its parameter `param` points to.
+type lockRef struct {
+	param int
+	field int
+	write bool
+	desc  string
+}
+
+var lockSetCache = map[*ssa.Function][]lockRef{}
+
+// lockSetOf: the mutexes (as fields of its pointer parameters) a module function acquires, directly or
+// through static calls that pass the same parameter on (depth-limited).
+func lockSetOf(fn *ssa.Function, depth int, visiting map[*ssa.Function]bool) []lockRef {
+	if fn == nil || len(fn.Blocks) == 0 || depth > 3 || visiting[fn] {
+		return nil
+	}
+	if r, ok := lockSetCache[fn]; ok && depth == 0 {
+		return r
+	}
+	visiting[fn] = true
+	defer delete(visiting, fn)
+	paramIdx := func(v ssa.Value) int {
+		for i, p := range fn.Params {
+			if ssa.Value(p) == v {
+				return i
+			}
+		}
+		return -1
+	}
+	var out []lockRef
+	seen := map[[3]int]bool{}
+	add := func(l lockRef) {
+		w := 0
+		if l.write {
+			w = 1
+		}
+		k := [3]int{l.param, l.field, w}
+		if !seen[k] {
+			seen[k] = true
+			out = append(out, l)
+		}
+	}
+	for _, b := range fn.Blocks {
+		for _, ins := range b.Instrs {
+			ci, ok := ins.(ssa.CallInstruction)
+			if !ok {
+				continue
+			}
+			if _, isGo := ins.(*ssa.Go); isGo {
+				continue
+			}
+			if _, isDefer := ins.(*ssa.Defer); isDefer {
+				// deferred lock calls are unusual; deferred unlocks are irrelevant here
+			}
+			c := ci.Common()
+			callee := c.StaticCallee()
+			if callee == nil {
+				continue
+			}
+			name := callee.String()
+			if name == "(*sync.Mutex).Lock" || name == "(*sync.RWMutex).Lock" || name == "(*sync.RWMutex).RLock" {
+				if fa, ok := c.Args[0].(*ssa.FieldAddr); ok {
+					if pi := paramIdx(fa.X); pi >= 0 {
+						st := derefType(fa.X.Type()).Underlying().(*types.Struct)
+						add(lockRef{param: pi, field: fa.Field, write: name != "(*sync.RWMutex).RLock", desc: fn.Params[pi].Name() + "." + st.Field(fa.Field).Name()})
+					}
+				}
+				continue
+			}
+			if callee.Pkg == nil || len(callee.Blocks) == 0 {
+				continue
+			}
+			for _, sub := range lockSetOf(callee, depth+1, visiting) {
+				if sub.param < len(c.Args) {
+					if pi := paramIdx(c.Args[sub.param]); pi >= 0 {
+						add(lockRef{param: pi, field: sub.field, write: sub.write, desc: sub.desc + " via " + callee.Name()})
+					}
+				}
+			}
+		}
+	}
+	if depth == 0 {
+		lockSetCache[fn] = out
+	}
+	return out
 }
